@@ -83,6 +83,11 @@ def feature_of(path, kinds, ents):
     for cand in (n, n[:-4] if n.endswith('_var') else None, n[:-4] if n.endswith('_agg') else None, n[:-4] if n.endswith('_ptr') else None):
         if cand and cand in kinds:
             return kinds[cand]
+    # a file named after a run-time library class means a declaration that generates no code was given a file
+    if stem.startswith('SDAI_') or b.startswith('SDAI_'):
+        return 'defined simple type (file named after a run-time class)'
+    if stem.endswith('Aggregate') or stem in ('LOGICALS', 'BOOLEANS') or b.split('.')[0] in ('LOGICALS', 'BOOLEANS') or b.split('.')[0].endswith('Aggregate'):
+        return 'aggregate type (file named after a run-time class)'
     return 'type file of an undeclared name'
 
 
